@@ -340,6 +340,38 @@ def pyIterationValues (start stop : Int) (step? : Option Int) : List Int :=
 """
 
 
+def relay_model() -> str:
+    """RelayNode.can_route_network / add_network use Python sets; they are modelled by pattern: the translator
+    asserts that the bodies are literally the expected ones and emits the list-as-set model."""
+    can = find_function("dsl_compiler/src/layout/connection_planner.py", "RelayNode.can_route_network")
+    add = find_function("dsl_compiler/src/layout/connection_planner.py", "RelayNode.add_network")
+
+    def body(fn):
+        return [ast.unparse(b) for b in fn.body if not (isinstance(b, ast.Expr) and isinstance(b.value, ast.Constant))]
+    want_can = ["networks = self.networks_red if wire_color == 'red' else self.networks_green",
+                "return len(networks) == 0 or network_id in networks"]
+    want_add = ["if wire_color == 'red':\n    self.networks_red.add(network_id)\nelse:\n    self.networks_green.add(network_id)"]
+    if body(can) != want_can:
+        raise Untranslatable("RelayNode.can_route_network changed: " + repr(body(can)))
+    if body(add) != want_add:
+        raise Untranslatable("RelayNode.add_network changed: " + repr(body(add)))
+    return """/-- `RelayNode` bookkeeping (sets as duplicate-free lists); pattern-translated from connection_planner.py -/
+structure RelayNode where
+  red : List Nat := []
+  green : List Nat := []
+  deriving Repr
+
+def setAdd (l : List Nat) (x : Nat) : List Nat := if l.contains x then l else x :: l
+
+def RelayNode.canRouteNetwork (r : RelayNode) (networkId : Nat) (isRed : Bool) : Bool :=
+  let networks := if isRed then r.red else r.green
+  networks.length == 0 || networks.contains networkId
+
+def RelayNode.addNetwork (r : RelayNode) (networkId : Nat) (isRed : Bool) : RelayNode :=
+  if isRed then { r with red := setAdd r.red networkId } else { r with green := setAdd r.green networkId }
+"""
+
+
 def generate() -> str:
     out = ["/- GENERATED by harness/py2lean.py from the current /repo sources. Do not edit. -/",
            "import Model.PyInt", "", "namespace Gen", ""]
@@ -355,6 +387,7 @@ def generate() -> str:
     f = Fn(find_function("dsl_compiler/src/parsing/transformer.py", "DSLTransformer._parse_number"), "parseNumber", ret="Option Int")
     out.append(f.lean()); notes += f.notes
     out.append(iteration_values(find_function("dsl_compiler/src/ast/statements.py", "ForStmt.get_iteration_values")))
+    out.append(relay_model())
     out.append("end Gen")
     out.append("")
     out.append("/- translator notes:\n" + "\n".join(sorted(set(notes))) + "\n-/")
